@@ -351,7 +351,7 @@ def build_frame(desc):
     rows = desc['rows']
     df = pd.DataFrame({
         'ceilo': [str(r[0]) for r in rows],
-        'dt': [float(r[1]) for r in rows],
+        'dt': [float(r[1]) + 0.0 for r in rows],          # -0.0 + 0.0 = 0.0: the latest time prints as '0.0', as in real data
         'height': [float('nan') if r[2] is None else float(r[2]) for r in rows],
         'type': [int(r[3]) for r in rows],
     })
